@@ -9,9 +9,10 @@ import "bytes"
 // canonical - whatever decodes re-encodes to exactly the consumed bytes.
 //verif:opts reach=accept,reject max_decisions=4000
 func VH_message_decoders_any_bytes() {
-	cmds := []string{CmdInv, CmdGetData, CmdNotFound, CmdHeaders, CmdGetBlocks, CmdGetHeaders, CmdAddr, CmdPing, CmdPong,
+	// (version / addr / addrv2 carry net.IP values, which are outside the encoder)
+	cmds := []string{CmdInv, CmdGetData, CmdNotFound, CmdHeaders, CmdGetBlocks, CmdGetHeaders, CmdPing, CmdPong,
 		CmdFeeFilter, CmdFilterAdd, CmdFilterLoad, CmdMerkleBlock, CmdReject, CmdGetCFilters, CmdGetCFHeaders, CmdGetCFCheckpt,
-		CmdCFilter, CmdCFHeaders, CmdCFCheckpt, CmdVersion, CmdAddrV2, CmdBlock}
+		CmdCFilter, CmdCFHeaders, CmdCFCheckpt, CmdBlock}
 	cmd := cmds[vNondetLen("cmd", len(cmds)-1)]
 	lens := []int{0, 1, 4, 9, 37, 82}
 	if vTier() == 1 {
